@@ -90,7 +90,7 @@ def programs(draw, tier):
     nfiles = draw(st.integers(1, 3))
     ops = []
     for _ in range(draw(st.integers(2, 12 if tier == "quick" else 24))):
-        kind = draw(st.sampled_from(["save", "save", "save_again", "load", "load", "autoload", "randomise", "reinit", "train", "reserved", "model_saver", "drift_restore", "load_reinit_save"]))
+        kind = draw(st.sampled_from(["save", "save", "save_again", "load", "load", "autoload", "randomise", "reinit", "train", "reserved", "model_saver", "drift_restore", "load_reinit_save", "overwrite_file"]))
         op = {"op": kind, "m": draw(st.integers(0, len(models) - 1)), "f": draw(st.integers(0, nfiles - 1)), "md": draw(st.integers(0, len(metas) - 1)),
               "loc": draw(st.sampled_from(["str", "str", "path", "fileobj", "fileobj_offset"]))}     # documented: "location: str or file"
         if kind == "reserved":
@@ -221,6 +221,25 @@ def check(case):
                         "a file saved after load -> reinitialise does not hold the model's current parameters")
                 require(same_udict(want_u, udict_of(back)), "autoload:unitary-dict:after-load-reinit-save", "unitary dictionary lost in load -> reinitialise -> save")
                 labels.add("load_reinit_save")
+            elif kind == "overwrite_file":
+                # one path, written twice: save -> autoload it -> other parameters -> save to the SAME path -> load / autoload that path again:
+                # what comes back is what the file holds now
+                fp = os.path.join(tmp, f"ow_{mi}.pt")
+                state.save(fp, md)
+                first = cls[spec["type"]].autoload(fp, gpu=False)
+                for net in state.networks:
+                    for p_ in getattr(state, net).parameters():
+                        p_.data.mul_(-0.75).add_(0.125)
+                new_p = params_of(state)
+                state.save(fp, md)
+                first.load(fp)
+                again = cls[spec["type"]].autoload(fp, gpu=False)
+                tgt2 = cls[spec["type"]].autoload(fp, gpu=False)
+                tgt2.reinitialize_parameters()
+                tgt2.load(fp)
+                require(same_params(new_p, params_of(first)) and same_params(new_p, params_of(again)) and same_params(new_p, params_of(tgt2)), "load:stale-after-overwrite",
+                        "after a file was overwritten by a second save, load()/autoload() of that path returned something other than the file's current contents")
+                labels.add("overwrite_file")
             elif kind == "drift_restore":
                 # save, let every parameter drift by a relative 1e-9 (e.g. a tiny update), restore from the file: bit-identical again
                 fp = os.path.join(tmp, f"drift_{mi}.pt")
